@@ -351,8 +351,14 @@ func compileMetadata(
 	}
 	keyspace.Aggregates = make(map[string]*AggregateMetadata, len(aggregates))
 	for i, _ := range aggregates {
-		aggregates[i].FinalFunc = *keyspace.Functions[aggregates[i].finalFunc]
-		aggregates[i].StateFunc = *keyspace.Functions[aggregates[i].stateFunc]
+		// an aggregate may have no final function, and its functions need not be
+		// user defined functions of this keyspace
+		if fn := keyspace.Functions[aggregates[i].finalFunc]; fn != nil {
+			aggregates[i].FinalFunc = *fn
+		}
+		if fn := keyspace.Functions[aggregates[i].stateFunc]; fn != nil {
+			aggregates[i].StateFunc = *fn
+		}
 		keyspace.Aggregates[aggregates[i].Name] = &aggregates[i]
 	}
 	keyspace.Views = make(map[string]*ViewMetadata, len(views))
